@@ -126,10 +126,14 @@ def run(ctx):
             arm_assigns.setdefault(norm(st.targets[0]), []).append(st)
     params = set(wi.params) - {"self", "fo"}
 
+    # the reader opened on the existing file, by role: the local assigned from reader(<the output stream>)
+    readers_ = [st.targets[0].id for sts in arm_assigns.values() for st in sts if isinstance(st.targets[0], ast.Name) and isinstance(st.value, ast.Call) and isinstance(st.value.func, ast.Name) and st.value.func.id == "reader"]
+    RD = readers_[0] if len(readers_) == 1 else "avro_reader"
+
     def header_derived(expr, depth=0):
         """names in expr are the existing file's reader/header or locals (re)assigned in the arm from them"""
         for nm in {x.id for x in ast.walk(expr) if isinstance(x, ast.Name)}:
-            if nm in ("avro_reader", "header", "BLOCK_WRITERS", "parse_schema", "reader", "self"):
+            if nm in (RD, "BLOCK_WRITERS", "parse_schema", "reader", "self"):
                 continue
             if nm in arm_assigns and depth < 4 and all(header_derived(s.value, depth + 1) for s in arm_assigns[nm]):
                 continue
@@ -137,7 +141,7 @@ def run(ctx):
         return True
 
     # locals holding the existing file
-    for attr, must in (("self.schema", "avro_reader.writer_schema"), ("self.sync_marker", "header"), ("self.block_writer", "BLOCK_WRITERS["), ("self._named_schemas", "")):
+    for attr, must in (("self.schema", f"{RD}.writer_schema"), ("self.sync_marker", "['sync']"), ("self.block_writer", "BLOCK_WRITERS["), ("self._named_schemas", "")):
         sts = arm_assigns.get(attr, [])
         if not sts:
             ctx.violation("C07.R5", f"append arm assigns {attr} from the existing header", wi.where(t.ast), f"Writer.__init__: append arm does not assign {attr}", f"when appending, {attr} keeps the value computed from the constructor's arguments instead of the existing file's header")
